@@ -90,6 +90,8 @@ fn find_match(name: &String, rule_tokens: &Vec<Rc<TokenInfo>>, tokinizer: &Tokin
     let mut fields             = BTreeMap::new();
     
     while let Some(token) = tokinizer.token_infos.get(target_token_index) {
+        #[cfg(feature = "verif")]
+        crate::verif::tick("find_match");
         target_token_index += 1;
         if token.status.get() == TokenInfoStatus::Removed {
             continue;
@@ -147,6 +149,8 @@ pub fn rule_tokinizer(tokinizer: &mut Tokinizer) {
         let mut execute_rules = true;
         while execute_rules {
             execute_rules = false;
+            #[cfg(feature = "verif")]
+            crate::verif::tick("rule_tokinizer");
 
             for rule in language.iter() {
                 if cfg!(feature="debug-rules") {
@@ -167,6 +171,8 @@ pub fn rule_tokinizer(tokinizer: &mut Tokinizer) {
                                         if cfg!(feature="debug-rules") {
                                             log::debug!("Rule function success with new token: {:?}", token);
                                         }
+                                        #[cfg(feature = "verif")]
+                                        let verif_active = crate::verif::active(&tokinizer.token_infos);
         
                                         let text_start_position = tokinizer.token_infos[start_token_index].start;
                                         let text_end_position   = tokinizer.token_infos[target_token_index - 1].end;
@@ -187,6 +193,8 @@ pub fn rule_tokinizer(tokinizer: &mut Tokinizer) {
                                             original_text: "".to_string(),
                                             status: Cell::new(TokenInfoStatus::Active)
                                         }));
+                                        #[cfg(feature = "verif")]
+                                        crate::verif::rewrite("rule", function_name, verif_active, &tokinizer.token_infos);
                                         break;
                                     },
                                     Err(error) => log::info!("Rule execution error, {}", error)
@@ -204,6 +212,8 @@ pub fn rule_tokinizer(tokinizer: &mut Tokinizer) {
                                 let simple_fields = fields.iter().map(|(key, value)| (key.to_string(), value.token_type.borrow().as_ref().unwrap().clone())).collect::<BTreeMap<_, _>>();
                                 if let Some(token) = rule.call(tokinizer.config, &simple_fields) {
                                     log::debug!("Rule function success with new token: {:?}", rule.name());
+                                    #[cfg(feature = "verif")]
+                                    let verif_active = crate::verif::active(&tokinizer.token_infos);
                                     
                                     let text_start_position = tokinizer.token_infos[start_token_index].start;
                                     let text_end_position   = tokinizer.token_infos[target_token_index - 1].end;
@@ -234,6 +244,8 @@ pub fn rule_tokinizer(tokinizer: &mut Tokinizer) {
                                         original_text: "".to_string(),
                                         status: Cell::new(TokenInfoStatus::Active)
                                     }));
+                                    #[cfg(feature = "verif")]
+                                    crate::verif::rewrite("api_rule", &rule.name(), verif_active, &tokinizer.token_infos);
                                     break;
                                 }
                             }
